@@ -211,6 +211,7 @@ type StructDef struct {
 	// ContainsInvalid: a valid-looking definition that transitively contains an invalid one.
 	ContainsInvalid bool
 	Cluster         int // index of the recursive cluster it belongs to (or -1)
+	shape           string
 }
 
 // FieldByID finds a field.
@@ -240,6 +241,7 @@ func (c *Corpus) index() {
 	c.byName = map[string]*StructDef{}
 	for _, s := range c.Structs {
 		c.byName[s.Name] = s
+		s.shape = s.computeShape()
 	}
 }
 
@@ -266,6 +268,13 @@ func (c *Corpus) RejectedDefs() []*StructDef {
 
 // Shape of a struct: sorted multiset of field shapes (name-free).
 func (s *StructDef) Shape() string {
+	if s.shape != "" {
+		return s.shape
+	}
+	return s.computeShape()
+}
+
+func (s *StructDef) computeShape() string {
 	var p []string
 	for _, f := range s.Fields {
 		x := f.Req.String()[:3] + ":" + f.T.Shape()
